@@ -202,6 +202,58 @@ def _worker_init(mem_gib: float, wall_s: int) -> None:
         faulthandler.dump_traceback_later(wall_s, exit=True)
 
 
+# Environment swarm: every task runs under a process environment drawn from its own content
+# (so it does not depend on the worker count): the local time zone (POSIX TZ strings, no tzdata
+# needed) and the garbage collector's mode.  kio's results must not depend on either; a violation
+# records the environment in its scenario ("_env") and replay/shrinking restore it.
+ENV_TZ = ("UTC0", "EET-2EEST,M3.5.0/3,M10.5.0/4", "EST5EDT,M3.2.0,M11.1.0", "IST-5:30", "NZST-12NZDT,M9.5.0,M4.1.0/3", "<-11>11")
+ENV_GC = ("default", "default", "off", "eager")
+
+
+def env_for(task: dict) -> dict:
+    scen = task.get("scenario") if isinstance(task, dict) else None
+    if isinstance(scen, dict) and isinstance(scen.get("_env"), dict):
+        return scen["_env"]
+    if os.environ.get("KIO_VERIF_NO_ENV_SWARM"):
+        return {"tz": ENV_TZ[0], "gc": "default"}
+    rng = random.Random(derive_seed("env", canon(task)[:4000]))
+    return {"tz": rng.choice(ENV_TZ), "gc": rng.choice(ENV_GC)}
+
+
+def apply_env(env: dict) -> None:
+    import gc
+
+    os.environ["TZ"] = env.get("tz", ENV_TZ[0])
+    time.tzset()
+    mode = env.get("gc", "default")
+    if mode == "off":
+        gc.disable()
+    else:
+        gc.enable()
+        gc.set_threshold(*((60, 3, 3) if mode == "eager" else (700, 10, 10)))
+
+
+def call_in_thread(fn, *args):
+    """Run fn(*args) in a freshly started thread (not the one that imported kio) and hand its
+    result or exception back to the caller."""
+    import threading
+
+    box: dict = {}
+
+    def run():
+        try:
+            box["r"] = fn(*args)
+        except BaseException as e:  # noqa: BLE001 - re-raised in the caller
+            box["e"] = e
+
+    t = threading.Thread(target=run, name="sim-caller-thread")
+    t.start()
+    t.join()
+    if "e" in box:
+        raise box["e"]
+    return box["r"]
+
+
 def _call(fn_path: str, task: dict):
     mod_name, fn_name = fn_path.rsplit(":", 1)
     mod = sys.modules.get(mod_name)
@@ -210,7 +262,17 @@ def _call(fn_path: str, task: dict):
 
         mod = importlib.import_module(mod_name)
     try:
-        return ("ok", getattr(mod, fn_name)(task))
+        env = env_for(task)
+        apply_env(env)
+        r = getattr(mod, fn_name)(task)
+        if isinstance(r, dict):
+            if isinstance(r.get("stats"), dict):
+                r["stats"]["env_tz_" + env["tz"].split(",")[0]] = r["stats"].get("env_tz_" + env["tz"].split(",")[0], 0) + 1
+                r["stats"]["env_gc_" + env["gc"]] = r["stats"].get("env_gc_" + env["gc"], 0) + 1
+            for v in r.get("violations") or ():
+                if isinstance(v.get("scenario"), dict):
+                    v["scenario"].setdefault("_env", env)
+        return ("ok", r)
     except BaseException as e:  # noqa: BLE001 - reported as harness error
         return ("err", f"{type(e).__name__}: {e}\n{traceback.format_exc()}")
 
